@@ -168,6 +168,17 @@ CHECKS = {
             "path was dequeued and scanned exactly once and the queue never held more than 64 entries.",
             "Trusted: the record parser; hook H4 (cli/yara.c) logs under the queue mutex. Schedules are sampled, not enumerated.",
             "DESIGN.md section 2, C18"),
+    "C09": ("exploration",
+            "ThreadSanitizer race detection plus reference-trace comparison and quiescent-point invariants under stress with injected yields",
+            "1 to 32 threads scan one shared compiled rule set through every scan entry point with per-scanner "
+            "externals that encode the thread id, aborting some scans from the callback and re-creating scanners "
+            "while others scan; every scan's callback sequence and match lists are compared with a reference recorded "
+            "single-threaded in the same process; TSan reports are de-duplicated by stack; after all threads joined the "
+            "signal-handler use count must be 0 and SIGBUS/SIGSEGV dispositions restored; H3 yield points widen and "
+            "record phase overlaps.",
+            "Trusted: gcc TSan; the harness (harness/yrmt.c). Schedules are sampled; evidence reports the overlapping "
+            "phase pairs actually observed.",
+            "DESIGN.md section 2, C09"),
 }
 
 NOT_YET = "check not built yet in this round (planned in DESIGN.md section 2); nothing is claimed for it"
